@@ -36,6 +36,17 @@ BOUNDS = {"quick": {"streams": 2, "tasks": "3", "rings": "2 (+1 re-schedule)", "
 CMP_PATCH = (CFG, r"#define COMPARISON_VAL\(it, off\).*", "#define COMPARISON_VAL(it, off) (*(int*)((char*)(it)+(off)))")
 ES_PATCH = (ES_H, r"execution_streams\[1\]", "execution_streams[NES]")
 HB_PATCH = ("parsec/hbbuffer.h", r"items\[1\]", "items[VP_HBSIZE]")
+# lifo.h: the head is a union {struct{counter; item}; __int128 value} updated by a 128-bit CAS.  CBMC then stores the head as
+# a 128-bit integer and every read of .data.item re-creates a pointer from an integer (ll_e2_21: out of 12 GB).  The overlay
+# copy performs the SAME compare-and-swap field by field (identical for complete, non-interleaved operations -- the only
+# kind of step in this property; the interleaved behaviour of the real CAS is C30's subject) and drops the alias member.
+LIFO_H = "parsec/class/lifo.h"
+LIFO_PATCHES = [
+    (LIFO_H, r"parsec_counted_pointer_t elem = \{\.data = .*\n\s*return parsec_atomic_cas_int128\(&addr->value, old\.value, elem\.value\);",
+     "if( addr->data.guard.counter == old.data.guard.counter && addr->data.item == old.data.item ) {"
+     " addr->data.guard.counter = old.data.guard.counter + 1; addr->data.item = item; return 1; } return 0;"),
+    (LIFO_H, r"__int128_t value;", "/* value member removed in the overlay */"),
+]
 
 
 def _ov_inc(ctx, q, qdir, overlays):
@@ -46,7 +57,7 @@ def _ov_inc(ctx, q, qdir, overlays):
 
 
 def _q(m, nes=2, n1=2, n2=1, resched=False, tiers=("quick", "thorough"), qsize=None, two_vp=False, lhq_small=False, name=None,
-       unwind=8, extra_defs=(), timeout=2400, slow=False):
+       unwind=8, extra_defs=(), timeout=2400, slow=False, dist=None):
     defs = ["M=" + m, 'MODFILE="%s"' % UNIT[m], "NES=%d" % nes, "N1=%d" % n1, "N2=%d" % n2]
     srcs = ["h.c", "repo:parsec/class/parsec_list.c"]
     patches = [CMP_PATCH, ES_PATCH]
@@ -60,6 +71,8 @@ def _q(m, nes=2, n1=2, n2=1, resched=False, tiers=("quick", "thorough"), qsize=N
         defs.append("RESCHED")
     if two_vp:
         defs.append("TWO_VP")
+    if dist is not None:
+        defs += ["D1=%d" % dist[0], "D2=%d" % dist[1]]
     if m == "rnd":
         defs.append("NEED_RAND")
         stubs.append("rand -> nondeterministic non-negative int")
@@ -69,6 +82,8 @@ def _q(m, nes=2, n1=2, n2=1, resched=False, tiers=("quick", "thorough"), qsize=N
     if m in ("ll", "llp"):
         srcs.append("repo:parsec/class/parsec_lifo.c")
         units.append("parsec/class/lifo.h")
+        patches += LIFO_PATCHES
+        stubs.append("lifo.h 128-bit CAS on the head -> field-wise compare-and-set, union alias member dropped (overlay)")
     if m in HB:
         srcs.append("repo:parsec/hbbuffer.c")
         patches.append(HB_PATCH)
@@ -97,15 +112,17 @@ def _q(m, nes=2, n1=2, n2=1, resched=False, tiers=("quick", "thorough"), qsize=N
             "stubs": stubs, "bounds": {"streams": nes, "tasks": n1 + n2},
             "functions": ["sched_%s_schedule" % m, "sched_%s_select" % m] + ([] if m in WIRED else ["flow_%s_init" % m])}
     nm = name or "%s_e%d_%d%d%s%s%s" % (m, nes, n1, n2, "_rs" if resched else "", "_2vp" if two_vp else "",
-                                         ("_q%d" % qsize) if qsize else ("_small" if lhq_small else ""))
+                                         ("_q%d" % qsize) if qsize else ("_small" if lhq_small else "")) + (("_d%d%d" % dist) if dist is not None else "")
     return Q(nm, srcs, defs=defs + list(extra_defs), unwind=unwind, unwindset=unwindset, object_bits=12, units=[UNIT[m]] + units, info=info,
              timeout=timeout, patches=patches, gen=_ov_inc, tiers=tiers, slow=slow)
 
 
 def queries(ctx):
     qs = []
-    for m in ["ap", "gd", "ip", "rnd", "spq", "ll", "llp"]:
+    for m in ["ap", "gd", "ip", "rnd", "ll", "llp"]:
         qs.append(_q(m))
+    for d in [(0, 1), (1, 1), (1, 0)]:
+        qs.append(_q("spq", dist=d))
     return qs
 
 
